@@ -189,18 +189,24 @@ class R:
     def agg(self, name, vals, n_rows):
         """Unordered aggregate of a list of values (nulls included) over a group of n_rows rows."""
         nn = [v for v in vals if v is not None]
+        empty_null = n_rows == 0 and self.conv in ("sql", "polars")
         if name in ("size", "_size", "_count"):
-            # SQL realises these as SUM(1): NULL over zero rows (destination convention of sums)
-            if n_rows == 0 and self.conv == "sql":
+            # SQL realises these as SUM(1): NULL over zero rows (destination convention of sums);
+            # Polars returns an all-null row for an un-grouped project of zero rows
+            if empty_null:
                 return None
             return n_rows
         if name == "count":
-            if n_rows == 0 and self.conv == "sql":
+            if empty_null:
                 return None
             return len(nn)
         if name == "sum":
             if len(nn) == 0:
-                return 0 if self.conv in ("pandas", "polars") else None
+                if self.conv == "pandas":
+                    return 0
+                if self.conv == "polars":
+                    return None if n_rows == 0 else 0
+                return None
             return sum((int(v) if isinstance(v, bool) else v) for v in nn)
         if len(nn) == 0:
             if name in ("max", "min", "mean", "median", "std", "var", "any_value"):
